@@ -316,9 +316,10 @@ class C15(World):
         sim = self.sim
         variant = ch.weighted("variant", [6, 3, 1])
         n_fi = 1 + ch.pick("cfg.n_fi", 2)
+        urls = self.draw_fi_urls(n_fi)
         for i in range(n_fi):
             fi = self.add_fi(i, ch.pick("fi.svc", 3), False, ["v1u", "v1c"][ch.pick("fi.form", 2)],
-                             ch.flag("fi.pretty", 0.3), msgsets=("BANK",))
+                             ch.flag("fi.pretty", 0.3), msgsets=("BANK",), url_index=urls[i])
             fi.behaviour_fn = self.behaviour
         self.faults_on = ch.flag("cfg.faults", 0.5)
         if self.faults_on:
